@@ -76,15 +76,8 @@ Definition of_obs (o : Obs) : St :=
      susp := list_to_map (o_susp o); vstat := list_to_map (o_vstat o);
      stake := list_to_map (o_stake o); bounty := o_bounty o; malicious := []; height := 0; now := 0 |}.
 
-(* is this step inside the input region of a known trigger (evaluated on the model's pre-state)? *)
-Definition known_region (c : Cfg) (s : St) (o : Op) : bool :=
-  match o with
-  | OEnd q _ =>
-      (let active := (elect c s q).2 in
-       existsb (fun kr => float_tally_mismatch c active (count_choice YES (r_votes kr.2)) (count_choice NO (r_votes kr.2)))
-               (map_to_list (reqs s)))
-  | _ => false
-  end.
+(* no known-trigger region is left for C19 (all three findings are repaired in /repo) *)
+Definition known_region (c : Cfg) (s : St) (o : Op) : bool := false.
 
 (* first step at which model and implementation differ: (step index, class, known-region-seen);
    class 1 = ok/fail of a transaction, 8 = verdict events, 2..7 see state_diff *)
@@ -132,7 +125,7 @@ Definition byz_frozen (o : Obs) (a : Z) : bool :=
    7 guilty validator's stake not reduced by exactly the penalty  8 bounty credited differs from / exceeds the penalties
    9 a frozen byzantine-fault record changed without a release    10 frozen validator still active after EndBlock
    11 a transaction that its handler's Validate must refuse (not signed by the named validator) was executed
-   known-finding trigger (second number): 1 float_tally_mismatch *)
+   the second number (known-finding trigger) is always 0: no known finding is left *)
 Definition mon_step (c : Cfg) (h t : Z) (prev : Obs) (st : Step) : list (Z * Z) :=
   let next := s_obs st in
   let frozen_kept :=
@@ -178,10 +171,7 @@ Definition mon_step (c : Cfg) (h t : Z) (prev : Obs) (st : Step) : list (Z * Z) 
           (if v.2 =? GUILTY then guilty_x c (count_choice YES (r_votes r)) req
            else innocent_x c (count_choice NO (r_votes r)) req && negb (guilty_x c (count_choice YES (r_votes r)) req)))
           (o_reqs prev) in
-      let trig (v : Z * Z) :=
-        if existsb (fun kr => (r_mal kr.2 =? v.1) &&
-             float_tally_mismatch c active (count_choice YES (r_votes kr.2)) (count_choice NO (r_votes kr.2))) (o_reqs prev)
-        then 1 else 0 in
+      let trig (v : Z * Z) := 0 in
       let guilty := filter (fun v => v.2 = GUILTY) (s_verdicts st) in
       flat_map (fun v => if verdict_ok v then [] else [(5, trig v)]) (s_verdicts st) ++
       flat_map (fun v => if byz_frozen next v.1 then [] else [(6, 0)]) guilty ++
